@@ -662,7 +662,7 @@ def trees(ctx: Ctx) -> Iterator[Tuple[List[Dict[str, Any]], str]]:
             yield c["tree"], "corpus"
     yield from enumerated()
     yield from malformed()
-    for _ in range(ctx.n(250, 12000)):
+    for _ in range(ctx.n(250, 6000)):
         yield random_tree(ctx, weird=0.0 if ctx.rng.random() < 0.6 else 0.2), "random"
 
 
